@@ -141,36 +141,64 @@ func OpenFileFlags(c ssa.CallInstruction) []int64 {
 	if len(args) < 2 {
 		return nil
 	}
-	var out []int64
-	seen := map[ssa.Value]bool{}
-	var walk func(v ssa.Value) bool
-	walk = func(v ssa.Value) bool {
-		if seen[v] {
-			return true
+	var eval func(v ssa.Value, depth int) map[int64]bool
+	eval = func(v ssa.Value, depth int) map[int64]bool {
+		if depth > 8 {
+			return nil
 		}
-		seen[v] = true
 		switch x := v.(type) {
 		case *ssa.Const:
 			if x.Value == nil || x.Value.Kind() != constant.Int {
-				return false
+				return nil
 			}
-			out = append(out, x.Int64())
-			return true
+			return map[int64]bool{x.Int64(): true}
 		case *ssa.Phi:
+			out := map[int64]bool{}
 			for _, e := range x.Edges {
-				if !walk(e) {
-					return false
+				s := eval(e, depth+1)
+				if s == nil {
+					return nil
+				}
+				for k := range s {
+					out[k] = true
 				}
 			}
-			return true
+			return out
 		case *ssa.BinOp:
-			// flags | const with both operands constant sets: enumerate combinations
-			return false
+			a, b := eval(x.X, depth+1), eval(x.Y, depth+1)
+			if a == nil || b == nil {
+				return nil
+			}
+			out := map[int64]bool{}
+			for i := range a {
+				for j := range b {
+					switch x.Op.String() {
+					case "|":
+						out[i|j] = true
+					case "&":
+						out[i&j] = true
+					case "&^":
+						out[i&^j] = true
+					case "+":
+						out[i+j] = true
+					default:
+						return nil
+					}
+				}
+			}
+			return out
+		case *ssa.Convert:
+			return eval(x.X, depth+1)
 		}
-		return false
-	}
-	if !walk(args[1]) {
 		return nil
+	}
+	set := eval(args[1], 0)
+	if set == nil {
+		return nil
+	}
+	var out []int64
+	for k := range set {
+		out = append(out, k)
 	}
 	sort.Slice(out, func(i, j int) bool { return out[i] < out[j] })
 	return out
